@@ -409,7 +409,7 @@ impl HasChildren for XmlAttribute {
     }
 
     fn insert_by_id(&self, value: Rc<XmlItem>, id: Option<usize>) -> error::Result<Rc<XmlItem>> {
-        if self.ancestor(value.id()) {
+        if self.id() == value.id() || self.ancestor(value.id()) {
             return Err(error::Error::InvalidHierarchy);
         }
 
@@ -2103,7 +2103,7 @@ impl HasChildren for XmlElement {
     }
 
     fn insert_by_id(&self, value: Rc<XmlItem>, id: Option<usize>) -> error::Result<Rc<XmlItem>> {
-        if self.ancestor(value.id()) {
+        if self.id() == value.id() || self.ancestor(value.id()) {
             return Err(error::Error::InvalidHierarchy);
         }
 
